@@ -82,8 +82,15 @@ fn two_kings_state() -> State {
         if kani::any() { Color::White } else { Color::Black },
         weechess_core::utils::ArrayMap::new([weechess_core::CastleRights::NONE, weechess_core::CastleRights::NONE]),
         None,
-        weechess_core::Clock { halfmove_clock: kani::any(), fullmove_number: kani::any() },
+        weechess_core::Clock { halfmove_clock: any_clock(), fullmove_number: any_clock() },
     )
+}
+
+/// machine range (a precondition of by_performing_move's contract, see C02): the clocks can still be incremented
+fn any_clock() -> usize {
+    let c: usize = kani::any();
+    kani::assume(c < usize::MAX);
+    c
 }
 
 fn reset() {
